@@ -137,10 +137,10 @@ theorem get_of_entries {m : SMap} {k v : Bytes} (hne : m.entries k ≠ []) (hall
 -- boundary ---------------------------------------------------------------------------------------------------------------------
 
 theorem neutral_facts {c : UInt8} (h : neutralByte c = true) :
-    spaceSide c = true ∧ isAlnum c = false ∧ isIdentChar c = false ∧ c.toNat < 128 := by
+    spaceSide c = true ∧ isAlnum c = false ∧ isIdentChar c = false := by
   simp only [neutralByte, Bool.and_eq_true, decide_eq_true_eq, Bool.not_eq_true', bne_iff_ne, ne_eq] at h
-  obtain ⟨⟨⟨h1, h2⟩, h3⟩, h4⟩ := h
-  refine ⟨?_, h2, ?_, h1⟩
+  obtain ⟨⟨h2, h3⟩, h4⟩ := h
+  refine ⟨?_, h2, ?_⟩
   · simp only [spaceSide, h2, Bool.not_false, Bool.true_and, Bool.or_eq_true, Bool.and_eq_true, bne_iff_ne, ne_eq]
     exact Or.inr ⟨h3, h4⟩
   · simp only [isIdentChar, h2, Bool.false_or, Bool.or_eq_false_iff, beq_eq_false_iff_ne, ne_eq]
@@ -155,14 +155,14 @@ theorem isBoundary_of_sides {bytes : Bytes} {start stop : Nat}
   constructor
   · rcases hl with h0 | ⟨p, hp, hn⟩
     · simp [h0]
-    · obtain ⟨h1, h2, _, _⟩ := neutral_facts hn
+    · obtain ⟨h1, h2, _⟩ := neutral_facts hn
       by_cases h0 : start = 0
       · simp [h0]
       · simp only [h0, ↓reduceIte, hp]
         split <;> simp [h1, h2]
   · rcases hr with h0 | ⟨n, hp, hn⟩
     · simp [h0]
-    · obtain ⟨h1, h2, _, _⟩ := neutral_facts hn
+    · obtain ⟨h1, h2, _⟩ := neutral_facts hn
       simp only [hp]
       split <;> simp [h1, h2]
 
@@ -200,8 +200,8 @@ theorem immediateContext_neutral {d₁ x d₂ : Bytes} (h1 : NeutralDelim d₁) 
   have t3 : (d₁ ++ x ++ d₂).drop (d₁.length + x.length) = d₂ := by
     rw [← List.length_append, List.drop_left']; rfl
   simp only [t1, t2, t3, List.drop_left']
-  rw [takeWhile_nil_of_all (fun c hc => (neutral_facts (h1 c (List.mem_reverse.mp hc))).2.2.1),
-    takeWhile_nil_of_all (fun c hc => (neutral_facts (h2 c hc)).2.2.1)]
+  rw [takeWhile_nil_of_all (fun c hc => (neutral_facts (h1 c (List.mem_reverse.mp hc))).2.2),
+    takeWhile_nil_of_all (fun c hc => (neutral_facts (h2 c hc)).2.2)]
   simp
 
 theorem find_go_skip {x : Bytes} (hne : x ≠ []) : ∀ (d rest : Bytes) (i : Nat), (∀ c ∈ d, x.head? ≠ some c) →
